@@ -56,9 +56,9 @@ def _count_ops(trace):
             n += 1
     return n, ops
 
-def drive(tier, seed, features=(), release=False, extra_args=(), label="drive"):
+def drive(tier, seed, features=(), release=False, extra_args=(), label="drive", small=False):
     feats = tuple(sorted(features))
-    key = key_of(label, repo_hash(), verif_hash(), tier, seed, feats, release, extra_args)
+    key = key_of(label, repo_hash(), verif_hash(), tier, seed, feats, release, extra_args, small)
     c = cache_get(label, key)
     if c:
         c["cached"] = True
@@ -66,6 +66,8 @@ def drive(tier, seed, features=(), release=False, extra_args=(), label="drive"):
     t0 = time.time()
     binp = build_harness(feats, release)
     chunks, runs, steps = (4, 12, 60) if tier == "quick" else (16, 60, 70)
+    if small:
+        chunks, runs, steps = (2, 8, 50) if tier == "quick" else (4, 30, 60)
     tdir = _trace_dir()
     def one(i):
         cseed = seed * 1000 + i
@@ -241,4 +243,145 @@ def borrow(tier, seed):
            "violations": violations[:50], "n_violations": len(violations), "samples": samples,
            "wall_s": round(time.time() - t0, 1), "cached": False, "exhaustive": True}
     cache_put("borrow", key, res)
+    return res
+
+
+def handles(tier, seed):
+    """C14: HandleMC (laws exhaustively at reduced widths + boundary classes at real widths) replayed."""
+    import random
+    key = key_of("handles", repo_hash(), verif_hash(), tier, seed)
+    c = cache_get("handles", key)
+    if c:
+        c["cached"] = True
+        return c
+    t0 = time.time()
+    binp = build_harness((), False)
+    rc, out, dt = run_tlc("HandleMC", workers=4, timeout=1200)
+    if "No error has been found" not in out:
+        raise ToolError("HandleMC failed:\n" + out[-3000:])
+    st = tlc_stats(out)
+    classes = [json.loads(m.group(1).encode().decode("unicode_escape")) for m in re.finditer(r'<<"HCLASS", "(.*)">>', out)]
+    rnd = random.Random(seed)
+    per_class = 20 if tier == "quick" else 2000
+    rows = []   # (pos, id, ghi, glo, class index)
+    for ci, c_ in enumerate(classes):
+        rows.append((c_["pos"], c_["id"], c_["gen"][0], c_["gen"][1], ci))
+        if c_["pos"] in (2, ):      # interior representative: add random members of the class
+            for _ in range(per_class):
+                pos = rnd.randrange(3, (1 << 24) - 2)
+                if c_["gen"] == [0, 0]:
+                    g = (0, 0)
+                else:
+                    g = (rnd.randrange(0, 65536), rnd.randrange(0, 65536))
+                    if g == (0, 0):
+                        g = (0, 7)
+                rows.append((pos, c_["id"], g[0], g[1], ci))
+    tfile = os.path.join(_trace_dir(), "handles-%s.txt" % key[:8])
+    with open(tfile, "w") as f:
+        for r in rows:
+            f.write("%d %d %d %d\n" % r[:4])
+    ofile = tfile + ".out"
+    rc, o2, dt = sh([binp, "handles", "--in", tfile, "--out", ofile], timeout=1800, check=False)
+    violations = []
+    if rc != 0:
+        violations.append({"tags": ["C14", "C03"], "what": "harness died running handle conversions (rc=%d)" % rc, "at": 0, "event": {}, "origin": {"engine": "handles"}})
+        obs = []
+    else:
+        obs = [json.loads(l) for l in open(ofile)]
+    ids_order = [3, 4, 255, 0]   # Ap, Aq, Ar, Aw
+    seen = set()
+    checked = 0
+    for r, o in zip(rows, obs[:-1] if obs else []):
+        cls = classes[r[4]]
+        exp_try = [cls["try_from"][str(i)] for i in ids_order]
+        bad = []
+        if o["from_raw"] != cls["from_raw"]:
+            bad.append("from_raw %s expected %s" % (o["from_raw"], cls["from_raw"]))
+        if o["from_raw"] and cls["from_raw"]:
+            if not o["raw_rt"]: bad.append("from_raw(raw(h)) != h")
+            if o["aid"] != cls["archetype_id"]: bad.append("archetype_id %d expected %d" % (o["aid"], cls["archetype_id"]))
+            if o["try"] != exp_try: bad.append("TryFrom per archetype %s expected %s" % (o["try"], exp_try))
+            if o["from_any_panics"] != [not x for x in exp_try]: bad.append("from_any panics %s expected %s" % (o["from_any_panics"], [not x for x in exp_try]))
+            if not o["typed_rt"]: bad.append("typed -> any round trip not exact")
+            if not o["typed_aid"]: bad.append("typed archetype_id/from_any disagree")
+            if o["sel_arch"] != cls["select"] or o["sel_ent"] != cls["select"] or o["sel_id"] != cls["select"]:
+                bad.append("Select* accepted=%s/%s/%s expected %s" % (o["sel_arch"], o["sel_ent"], o["sel_id"], cls["select"]))
+            if cls["select"] and o["sel_arch_id"] != cls["archetype_id"]: bad.append("SelectArchetype id %d" % o["sel_arch_id"])
+            if not o["sel_ent_faithful"]: bad.append("SelectEntity variant does not carry the same handle")
+            if not o["eq_hash"]: bad.append("Eq/Hash/HashSet/HashMap inconsistent")
+            k = r[:4]
+            if o["first"] != (k not in seen): bad.append("HashSet first-insert %s for a %s value" % (o["first"], "new" if k not in seen else "repeated"))
+            seen.add(k)
+        checked += 1
+        for b in bad:
+            violations.append({"tags": ["C14"], "what": b, "at": checked, "event": {"pos": r[0], "id": r[1], "gen": [r[2], r[3]], "observed": o}, "origin": {"engine": "handles"}})
+    if obs:
+        for d in obs[-1]["direct"]:
+            a = d["a"]
+            want_try = [i == a for i in range(4)]
+            if d["aid"] != ids_order[a] or d["typed_aid"] != ids_order[a] or d["ent_aid"] != ids_order[a] or d["const_id"] != ids_order[a] or d["try"] != want_try \
+               or d["from_any_panics"] != [not x for x in want_try] or not d["rt"] or d["sel"] != a or not d["eq"]:
+                violations.append({"tags": ["C14", "C15"], "what": "direct-handle conversions of archetype %d disagree with the table" % a, "at": 0, "event": d, "origin": {"engine": "handles"}})
+    for p in (tfile, ofile):
+        if os.path.exists(p):
+            os.remove(p)
+    res = {"engine": "handles", "tier": tier, "seed": seed, "classes": len(classes), "values": len(rows), "checked": checked,
+           "conversions_per_value": 30, "direct_archetypes": 4, "traces": len(rows),
+           "tlc_states": st.get("distinct", 0), "tlc_transitions": st.get("generated", 0), "laws_universe": 8 * 8 * 4,
+           "violations": violations[:60], "n_violations": len(violations),
+           "samples": [{"class": classes[i], "value": list(rows[i][:4])} for i in (0, 57, 211) if i < len(classes)],
+           "wall_s": round(time.time() - t0, 1), "cached": False}
+    cache_put("handles", key, res)
+    return res
+
+
+MC_TAGS = {"C03_EntityInBounds": ["C03"], "RepInv": ["C12", "C01", "C10"], "GhostOk": ["C01", "C06"], "C01_ResolveIffLive": ["C01", "C03"],
+           "C02_OwnValue": ["C02"], "C03_DirectInBounds": ["C03"], "C08_FreeIsNewer": ["C08"], "C09_Direct": ["C09"],
+           "C12_Len": ["C12"], "NoBad": ["C08", "C10", "C12"]}
+
+def storage_mc(tier, seed):
+    """TLC exhaustive exploration of the implementation-level slot-map model (design-level truth;
+    bound to the code by the tour and by trace validation)."""
+    key = key_of("storage_mc", verif_hash(), tier)
+    c = cache_get("storage_mc", key)
+    if c:
+        c["cached"] = True
+        return c
+    t0 = time.time()
+    confs = [dict(MaxCap=4, MaxSlotVer=3, MaxArchVer=4, Wrapping="FALSE", DebugAsserts="TRUE", InitCaps="{0, 1, 2, 3}"),
+             dict(MaxCap=3, MaxSlotVer=2, MaxArchVer=3, Wrapping="TRUE", DebugAsserts="FALSE", InitCaps="{0, 1, 3}")]
+    if tier == "thorough":
+        confs = [dict(MaxCap=6, MaxSlotVer=3, MaxArchVer=5, Wrapping="FALSE", DebugAsserts="TRUE", InitCaps="{0, 1, 2, 3, 5}"),
+                 dict(MaxCap=5, MaxSlotVer=4, MaxArchVer=4, Wrapping="FALSE", DebugAsserts="FALSE", InitCaps="{0, 2, 4}"),
+                 dict(MaxCap=4, MaxSlotVer=3, MaxArchVer=4, Wrapping="TRUE", DebugAsserts="TRUE", InitCaps="{0, 1, 2, 3}")]
+    states = trans = 0
+    violations = []
+    runs = []
+    for cf in confs:
+        cfg = os.path.join(BUILD, "tlc", "StorageMC-%s.cfg" % key_of(cf)[:8])
+        os.makedirs(os.path.dirname(cfg), exist_ok=True)
+        wrapping = cf["Wrapping"] == "TRUE"
+        with open(cfg, "w") as f:
+            f.write("SPECIFICATION Spec\nCONSTANTS\n" + "".join("  %s = %s\n" % kv for kv in cf.items()) + "  Pinned = FALSE\n  Edges = FALSE\n")
+            if wrapping:
+                # history ghosts are unbounded under wrapping; only structural / in-bounds invariants, states identified by st
+                f.write("INVARIANTS RepInv C03_DirectInBounds C03_EntityInBounds\nVIEW StView\nCHECK_DEADLOCK FALSE\n")
+            else:
+                f.write("INVARIANTS RepInv GhostOk C01_ResolveIffLive C02_OwnValue C03_DirectInBounds C03_EntityInBounds C08_FreeIsNewer C09_Direct C12_Len NoBad\nCHECK_DEADLOCK FALSE\n")
+        rc, out, dt = run_tlc("StorageMC", cfg=cfg, workers=8, timeout=600 if tier == "quick" else 7000)
+        st = tlc_stats(out)
+        states += st.get("distinct", 0)
+        trans += st.get("generated", 0)
+        runs.append(dict(cf, distinct=st.get("distinct", 0), generated=st.get("generated", 0), depth=st.get("depth", 0), wall_s=round(dt, 1)))
+        if "No error has been found" not in out:
+            m = re.search(r"Invariant (\w+) is violated", out)
+            if not m:
+                raise ToolError("StorageMC failed:\n" + out[-3000:])
+            violations.append({"tags": MC_TAGS.get(m.group(1), ["TOOL"]), "what": "model invariant %s violated (specification-level counterexample)" % m.group(1),
+                               "at": 0, "event": {"config": cf, "tlc_tail": out[-1500:]}, "origin": {"engine": "storage_mc"}})
+    res = {"engine": "storage_mc", "tier": tier, "traces": 0, "runs": runs, "tlc_states": states, "tlc_transitions": trans,
+           "violations": violations, "samples": [{"model": "StorageMC", "config": runs[0],
+                                                    "invariants": sorted(MC_TAGS)}],
+           "wall_s": round(time.time() - t0, 1), "cached": False, "exhaustive_within_bounds": True}
+    cache_put("storage_mc", key, res)
     return res
